@@ -63,6 +63,38 @@ def generate():
     dg = hashlib.sha256(inspect.getsource(pyhf.PatchSet.__init__).encode() + inspect.getsource(pyhf.PatchSet.__getitem__).encode()).hexdigest()[:16]
     out.append(f'/-- `PatchSet.__init__` + `__getitem__` (source sha256 {dg}…): `"dupName"` / `"dupValues"` = the `InvalidPatchSet` raised; `"ok:i0,i1,i2,j0,j1,j2,k0,k1,k2"` =\naccepted, with the position of the patch found under name `n_m` (`i_m`), under the tuple `(v_m,)` (`j_m`) and under the list `[v_m]` (`k_m`) -/')
     out.append(f'def patchset_ctor3 (n0 n1 n2 : String) (v0 v1 v2 : V) : String :=\n{lean_tree(tree)}\n')
+    # ---- `verify` / `apply` with two listed algorithms: recorded digests r0 (sha256), r1 (md5) and computed digests c0, c1 are atoms, so
+    # each comparison `digest_calc == digest` consults the oracle; `utils.digest` is replaced by the uninterpreted computed digest
+    rec = {'sha256': Atom('digest', 'r0'), 'md5': Atom('digest', 'r1')}
+    calc = {'sha256': Atom('digest', 'c0'), 'md5': Atom('digest', 'c1')}
+    saved_digest = psmod.utils.digest; saved_ws = psmod.Workspace
+
+    def vspec():
+        return {'metadata': {'references': {}, 'description': 'd', 'digests': dict(rec), 'labels': ['x']},
+                'patches': [{'metadata': {'name': 'p', 'values': [1]}, 'patch': [{'op': 'add', 'path': '/x', 'value': 1}]}], 'version': '1.0.0'}
+
+    def vrun():
+        ps = pyhf.PatchSet(vspec())
+        res = []
+        for what in ('verify', 'apply'):
+            ws = {'y': 2}
+            try:
+                o = ps.verify(ws) if what == 'verify' else ps.apply(ws, 'p')
+                if what == 'apply' and not (dict(o) == {'y': 2, 'x': 1} and ws == {'y': 2}): res.append('wrong-result')
+                else: res.append('ok')
+            except pyhf.exceptions.PatchSetVerificationError:
+                res.append('verification')
+        return '"' + ','.join(res) + '"'
+    try:
+        psmod.schema.validate = lambda *a, **k: None
+        psmod.utils.digest = lambda spec_, algorithm='sha256': calc[algorithm]
+        saved_ws = psmod.Workspace; psmod.Workspace = lambda spec_: spec_          # the toy document is no workspace: wrapping it is not the subject
+        vtree = sx.paths(vrun)
+    finally:
+        psmod.schema.validate = saved; psmod.utils.digest = saved_digest; psmod.Workspace = saved_ws
+    dg2 = hashlib.sha256(inspect.getsource(pyhf.PatchSet.verify).encode() + inspect.getsource(pyhf.PatchSet.apply).encode()).hexdigest()[:16]
+    out.append(f'/-- `PatchSet.verify` + `PatchSet.apply` (source sha256 {dg2}…) on a patch set listing two algorithms, recorded digests `r0` (sha256), `r1` (md5), digests\nof the given workspace `c0`, `c1`: outcome of `verify`, then of `apply` (`"ok"` = returned — for `apply`: the JSON patch applied to a copy, the\nworkspace itself untouched; `"verification"` = `PatchSetVerificationError`) -/')
+    out.append(f'def patchset_verify2 (c0 c1 r0 r1 : String) : String :=\n{lean_tree(vtree)}\n')
     out.append('end\nend Pyhf.Gen\n')
     return '\n'.join(out)
 
